@@ -10,8 +10,13 @@ git diff --quiet || { echo "/repo not clean"; exit 9; }
 # demo on clean tree (run from /repo so that the demo's sys.path.insert(0, cwd) picks /repo)
 ( cd /repo && timeout 600 /venv/bin/python $dst/demo.py >/tmp/seed_demo_clean.txt 2>&1 ); c0=$?
 git apply $dst/patch.diff || { echo "patch does not apply"; exit 9; }
-if git diff --name-only | grep -q '\.c$'; then echo "(C change: checks rebuild the extension themselves)"; fi
+SO=qubovert/sim/_canneal.cpython-312-x86_64-linux-gnu.so
+if git diff --name-only | grep -q '\.c$'; then
+  echo "(C change: the demo needs a rebuilt extension; the checks rebuild it themselves)"
+  cp $SO /tmp/seed_so_backup; /venv/bin/python setup.py build_ext --inplace -q >/dev/null 2>&1
+fi
 ( cd /repo && timeout 600 /venv/bin/python $dst/demo.py >/tmp/seed_demo_mut.txt 2>&1 ); c1=$?
+if [ -f /tmp/seed_so_backup ]; then cp /tmp/seed_so_backup $SO; rm -f /tmp/seed_so_backup; rm -rf build; fi
 echo "demo clean exit=$c0 mutated exit=$c1"
 res=""
 for p in $id "$@"; do
